@@ -88,6 +88,7 @@ type fnTrans struct {
 	usedContracts map[string]bool
 	lockKeys  []lockKeyRef
 	quietSpec int
+	condOwner *sval
 	capturedBorrow map[ssa.Value]bool
 	curBlock *ssa.BasicBlock
 	rangeOf  map[ssa.Value]*ssa.Range
